@@ -97,8 +97,9 @@ type reader struct {
 	log    []recv
 	in     confluence.Inlet[cesium.StreamerRequest]
 	out    confluence.Outlet[cesium.StreamerResponse]
-	cancel context.CancelFunc
-	done   chan struct{}
+	cancel  context.CancelFunc
+	done    chan struct{}
+	release chan struct{} // closed when a stalled consumer may start draining
 }
 
 type scenario struct {
@@ -108,6 +109,8 @@ type scenario struct {
 	closer  bool
 	wide    int // >0: one writer writing frames with this many channels; readers subscribe to one channel each
 	hold    bool // streamers stay connected until every writer has finished (so that the cheapest schedules already overlap)
+	stall   bool // the last streamer's consumer never takes a frame after the open acknowledgement
+	empty   bool // streamer r1 re-subscribes to c2 and then to no channel at all
 }
 
 func val(writer, seq int) int64 { return int64(writer*100 + seq) }
@@ -143,6 +146,7 @@ func body(sc scenario, result *string) schedx.Body {
 		readers := make([]*reader, sc.readers)
 		var threads, wthreads []func()
 		writersDone := make(chan struct{})
+		emptied := make(chan struct{}) // closed once r1's re-subscription to nothing has been applied
 		var wleft = sc.writers
 		var wmu sync.Mutex
 		// writers
@@ -180,6 +184,10 @@ func body(sc scenario, result *string) schedx.Body {
 					fail(fmt.Sprintf("w%d.open", wi), err)
 					return
 				}
+				if sc.empty {
+					<-emptied
+					schedx.Resumed()
+				}
 				for s := 1; s <= frames; s++ {
 					schedx.Point("op")
 					e := w.begin(fmt.Sprintf("w%d.%d", wi, s))
@@ -207,7 +215,7 @@ func body(sc scenario, result *string) schedx.Body {
 		}
 		// streamer control threads
 		for ri := 0; ri < sc.readers; ri++ {
-			rd := &reader{name: fmt.Sprintf("r%d", ri+1), done: make(chan struct{})}
+			rd := &reader{name: fmt.Sprintf("r%d", ri+1), done: make(chan struct{}), release: make(chan struct{})}
 			readers[ri] = rd
 			threads = append(threads, func() {
 				sub := []cesium.ChannelKey{c1, c2, c3}
@@ -228,29 +236,42 @@ func body(sc scenario, result *string) schedx.Body {
 				}
 				sCtx, cancel := signal.Isolated()
 				rd.cancel = cancel
-				rd.in, rd.out = confluence.Attach(st, 10)
+				stalled := sc.stall && ri == sc.readers-1
+				if stalled {
+					rd.in, rd.out = confluence.Attach(st, 1)
+				} else {
+					rd.in, rd.out = confluence.Attach(st, 10)
+				}
 				st.Flow(sCtx, confluence.CloseOutputInletsOnExit())
 				<-rd.out.Outlet() // open ack
 				w.finish(e)
-				go func() { // always-ready consumer
-					defer close(rd.done)
-					for res := range rd.out.Outlet() {
-						w.mu.Lock()
-						w.clock++
-						at := w.clock
-						w.mu.Unlock()
-						// the delivered frame is kept and decoded only when the execution is over: a
-						// frame must not change under the consumer after it was delivered
-						rd.mu.Lock()
-						rd.log = append(rd.log, recv{at: at, frame: res.Frame})
-						rd.mu.Unlock()
-					}
-				}()
+				if stalled {
+					// takes nothing until it disconnects; then drains so that the streamer can exit
+					go func() {
+						defer close(rd.done)
+						<-rd.release
+						for range rd.out.Outlet() {
+						}
+					}()
+				} else {
+					go consume(w, rd)
+				}
 				if ri == 0 && sc.wide == 0 {
 					schedx.Point("op")
 					e := w.begin(rd.name + ".resub")
 					rd.in.Inlet() <- cesium.StreamerRequest{Channels: []cesium.ChannelKey{c2}}
 					w.finish(e)
+					if sc.empty {
+						schedx.Point("op")
+						e := w.begin(rd.name + ".resub-empty")
+						rd.in.Inlet() <- cesium.StreamerRequest{Channels: []cesium.ChannelKey{}}
+						// the request is applied by the streamer's own goroutine: one second of fake
+						// time lets it run to quiescence before the writer is allowed to write
+						time.Sleep(time.Second)
+						schedx.Resumed()
+						w.finish(e)
+						close(emptied)
+					}
 				}
 				if sc.hold {
 					<-writersDone
@@ -262,6 +283,9 @@ func body(sc scenario, result *string) schedx.Body {
 				schedx.Point("op")
 				e = w.begin(rd.name + ".close")
 				rd.in.Close()
+				if stalled {
+					close(rd.release)
+				}
 				<-rd.done
 				w.finish(e)
 				cancel()
@@ -308,6 +332,22 @@ func body(sc scenario, result *string) schedx.Body {
 			}
 		}
 		return b.String() + " => " + *result
+	}
+}
+
+// consume is the always-ready consumer of a streamer
+func consume(w *world, rd *reader) {
+	defer close(rd.done)
+	for res := range rd.out.Outlet() {
+		w.mu.Lock()
+		w.clock++
+		at := w.clock
+		w.mu.Unlock()
+		// the delivered frame is kept and decoded only when the execution is over: a frame
+		// must not change under the consumer after it was delivered
+		rd.mu.Lock()
+		rd.log = append(rd.log, recv{at: at, frame: res.Frame})
+		rd.mu.Unlock()
 	}
 }
 
@@ -359,13 +399,21 @@ func judge(sc scenario, w *world, readers []*reader, errs map[string]string) str
 					}
 				}
 			}
+			if ri == 0 && sc.empty {
+				if e, re := ev[id], ev[rd.name+".resub-empty"]; e != nil && re != nil && e.start > re.end+drainSlack {
+					return fmt.Sprintf("unsubscribed-key: %s received %s (keys %v), written after it had re-subscribed to no channel", rd.name, id, r.keys)
+				}
+			}
 			if ri == 0 && sc.wide == 0 && len(r.keys) > 1 {
 				return fmt.Sprintf("unsubscribed-key: %s received keys %v in one frame", rd.name, r.keys)
 			}
 		}
 		// completeness: frames written entirely inside the connected window
 		open, cl := ev[rd.name+".open"], ev[rd.name+".close"]
-		if open == nil || cl == nil || sc.closer || !sc.hold {
+		if sc.stall && ri == len(readers)-1 {
+			continue // the stalled consumer is owed nothing
+		}
+		if open == nil || cl == nil || sc.closer || !sc.hold || sc.empty {
 			continue // without the drain pause a frame may legitimately still be in flight at disconnect
 		}
 		for _, e := range w.events {
@@ -387,6 +435,11 @@ func judge(sc scenario, w *world, readers []*reader, errs map[string]string) str
 	return "ok"
 }
 
+// drainSlack: a re-subscription request is acknowledged by nothing; frames whose write began
+// within this many logical events after the request was handed over may still be filtered with
+// the old subscription.
+const drainSlack = 0
+
 func sequential(threads ...func()) bool {
 	for _, f := range threads {
 		f()
@@ -401,19 +454,26 @@ type viol struct {
 
 func (v *viol) Error() string { return v.v.Error() }
 
+var (
+	inflightSlot int
+	inflightName string
+)
+
 func TestCheck(t *testing.T) {
 	r := vk.New("C20", "exploration")
 	quick := r.Quick()
 	scs := []scenario{
-		{"Q1 writer 1 || streamer r1 (subscribe c1, re-subscribe c2, close)", 1, 1, false, 0, false},
-		{"Q2 writer 1 || writer 2 (unauthorised on c1, c2) || r1 || r2 (all channels)", 2, 2, false, 0, false},
-		{"Q3 one writer, 140-channel frames || two streamers each subscribed to one channel, connected throughout", 1, 2, false, 140, true},
-		{"Q4 writer 1 || writer 2 || r1 || r2, streamers connected until the writers finish", 2, 2, false, 0, true},
+		{"Q1 writer 1 || streamer r1 (subscribe c1, re-subscribe c2, close)", 1, 1, false, 0, false, false, false},
+		{"Q2 writer 1 || writer 2 (unauthorised on c1, c2) || r1 || r2 (all channels)", 2, 2, false, 0, false, false, false},
+		{"Q3 one writer, 140-channel frames || two streamers each subscribed to one channel, connected throughout", 1, 2, false, 140, true, false, false},
+		{"Q4 writer 1 || writer 2 || r1 || r2, streamers connected until the writers finish", 2, 2, false, 0, true, false, false},
+		{"Q5 writer 1 || writer 2 || r1 (always ready) || r2 whose consumer stalls, connected until the writers finish", 2, 2, false, 0, true, true, false},
+		{"Q6 writer 1 || r1 (subscribe c1, re-subscribe c2, re-subscribe to nothing, stay until the writer finished)", 1, 1, false, 0, true, false, true},
 	}
 	bound := 2
 	if !quick {
 		bound = 3
-		scs = append(scs, scenario{"T3 writer 1 || writer 2 || r1 || r2 || db.Close", 2, 2, true, 0, false})
+		scs = append(scs, scenario{"T3 writer 1 || writer 2 || r1 || r2 || db.Close", 2, 2, true, 0, false, false, false})
 	}
 	rots := []uint32{0, 1, 2}
 	if only := os.Getenv("VERIF_ONLY"); only != "" {
@@ -431,7 +491,7 @@ func TestCheck(t *testing.T) {
 			fmt.Fprintln(os.Stderr, err)
 			os.Exit(2)
 		}
-		for _, sc := range append(scs, scenario{"T3 writer 1 || writer 2 || r1 || r2 || db.Close", 2, 2, true, 0, false}) {
+		for _, sc := range append(scs, scenario{"T3 writer 1 || writer 2 || r1 || r2 || db.Close", 2, 2, true, 0, false, false, false}) {
 			if !strings.HasPrefix(v.Scenario, sc.name) {
 				continue
 			}
@@ -472,8 +532,9 @@ func TestCheck(t *testing.T) {
 		for _, rot := range rots {
 			var res string
 			name := fmt.Sprintf("%s selrot=%d", sc.name, rot)
+			inflightSlot, inflightName = shard, name
 			cfg := schedx.Config{Name: name, Body: body(sc, &res), Preemptions: bound, SelRot: rot, Shard: shard, Shards: shards,
-				Deadline: time.Now().Add(r.Left() / time.Duration(n-k)), OnExec: vk.Beat,
+				Deadline: time.Now().Add(r.Left() / time.Duration(n-k)), OnExec: vk.Beat, OnRun: func(p []int) { vk.Inflight(inflightSlot, inflightName, []string{fmt.Sprint(p)}) },
 				Check: func(out string, dl bool, choices []int) error {
 					if dl {
 						return &viol{vk.Violationf("deadlock:"+sc.name[:2], "deadlock (an operation never returns) under schedule %v: %s", choices, out), choices}
